@@ -57,7 +57,7 @@ META = {
     ),
     "C15": dict(
         engine="E3 tcp",
-        technique="Lean 4 total decision table of connection outcomes with their metric calls (`outcome_table`), corollaries by case analysis; model of the counting wrapper metrics.MeasureConn with theorems for every sequence of reads/writes/copies with arbitrary short counts (write counter = bytes the connection accepted, read counter <= bytes delivered), tied by the `mconn` campaign; generated wiring facts (opened once before Handle, AddClosed once after handleConnection); differential correspondence with a per-connection recording TCPConnMetrics and socket-level byte counts",
+        technique="Lean 4 total decision table of connection outcomes with their metric calls (`outcome_table`), corollaries by case analysis; model of the counting wrapper metrics.MeasureConn with theorems for every sequence of reads/writes/copies with arbitrary short counts (write counter = bytes the connection accepted, read counter <= bytes delivered), tied by the `mconn` campaign; generated wiring facts (opened once before Handle, AddClosed once after handleConnection); differential correspondence with a per-connection recording TCPConnMetrics and socket-level byte counts; the functions themselves are TRANSLATED from the Go source into Lean on every run (extract/golean.go -> Gen/Code.lean) and proved, for all inputs, never to panic and to do what the hand model does (Proofs/Tie*.lean) (measuredConn.Read / Write / WriteTo / ReadFrom: each adds exactly the count the underlying operation reported to exactly one counter)",
         text="Kernel-checked: closed exactly once and last; authenticated reported at most once and iff authentication succeeded; probe reported iff it failed, with the bytes received; counters equal the bytes that crossed for relayed connections and never exceed the bytes sent otherwise.",
         note="Conditional on C18 (a handler panic would skip AddClosed). Trusted: Lean kernel, hand model, extractor wiring facts.",
     ),
@@ -75,13 +75,13 @@ META = {
     ),
     "C01": dict(
         engine="E2 auth + E3 tcp",
-        technique="Lean 4 theorems: snapshot is a permutation, first-match lookup sound and complete, (id,key) multiset invariant over all histories of lookups/marks/updates by induction, authenticator attribution/completeness; tied by differential correspondence with the real authenticator (status, id, snapshot index)",
+        technique="Lean 4 theorems: snapshot is a permutation, first-match lookup sound and complete, (id,key) multiset invariant over all histories of lookups/marks/updates by induction, authenticator attribution/completeness; tied by differential correspondence with the real authenticator (status, id, snapshot index); the functions themselves are TRANSLATED from the Go source into Lean on every run (extract/golean.go -> Gen/Code.lean) and proved, for all inputs, never to panic and to do what the hand model does (Proofs/Tie*.lean) (matchesIP, SnapshotForClientIP incl. both index-filling passes, MarkUsedByClientIP, Update, findEntry; container/list is the prelude's)",
         text="Kernel-checked for every key list, client IP, MRU history and interleaving of list operations: the key search fails iff no configured key opens the header, returns a configured entry whose key opens it, never loses or duplicates keys; the authenticator attributes to that entry's id and answers ERR_CIPHER with no side effect otherwise.",
         note="Trusted: Lean kernel, hand models validated on ~10k authentications per quick run incl. 40-240-key mixed-cipher lists; AEAD strength (KeySeparation) is an explicit hypothesis.",
     ),
     "C08": dict(
         engine="E2 auth + E3 tcp",
-        technique="Lean 4 theorems for every HMAC function (own salt recognised, injective in the random prefix, marked iff salt >= 20 over the generated cipher table, reflected handshake refused for every cache state); generated wiring facts; differential correspondence with server-marked salts built by an independent HMAC implementation",
+        technique="Lean 4 theorems for every HMAC function (own salt recognised, injective in the random prefix, marked iff salt >= 20 over the generated cipher table, reflected handshake refused for every cache state); generated wiring facts; differential correspondence with server-marked salts built by an independent HMAC implementation; the functions themselves are TRANSLATED from the Go source into Lean on every run (extract/golean.go -> Gen/Code.lean) and proved, for all inputs, never to panic and to do what the hand model does (Proofs/Tie*.lean) (serverSaltGenerator.splitSalt / IsServerSalt, HMAC a parameter)",
         text="Kernel-checked: issued salts are recognised, the reflected-replay refusal does not depend on the replay cache (disabled or nil included) and precedes it; which ciphers are marked is decided over the regenerated table; wiring facts tie the response writer to the matched entry's generator.",
         note="Freshness itself is probabilistic (RNG contract): pairwise distinctness of real response salts is checked empirically by the tcp campaign. Trusted: Lean kernel, hand model, extractor.",
     ),
